@@ -18,7 +18,7 @@ func init() {
 		Explanation: "Scheduling discipline of Delay, debounce and throttle, decided structurally: (engine E1) every access to debouncer.timer and throttler.last/waiting/stop holds the instance " +
 			"lock (LK1/CV1), locks are balanced (LK2/LK3), cond.Wait sits in a loop that re-tests the predicate fields (CV2), every store that can end a wait is followed by a wake-up before the lock " +
 			"is released (CV3), grant consumption and time stamping happen in one critical section (AT1); (engine E4/E7, added below when built) the callback flows only into time.AfterFunc with the " +
-			"configured duration, a pending timer is stopped before it is replaced, the stop flag is monotone. Timing inequalities are not decided.",
+			"configured duration, a pending timer is stopped before it is replaced, the stop flag is monotone. Timing inequalities are not decided. GG4 one permission per period also for a Next that arrives after a trailing trigger: Next consumes only where the period is known to have elapsed (all eight assignments of stop / waiting / elapsed walked from the entry and from every return of cond.Wait), or Call never grants before it.",
 		Assumptions: []string{"contracts of time.AfterFunc, time.Timer.Stop, sync.Cond, sync.Mutex"},
 		NotDecided:  []string{"every wall-clock inequality", "races between Timer.Stop and an already firing timer", "trailing-mode rate (at most one permission per period)"},
 		Run: func(p *core.Program, r *core.Report) {
@@ -501,6 +501,7 @@ func c20Extra(p *core.Program, r *core.Report) {
 	r.Floor("AF1", 3)
 	r.Floor("SR1", 2)
 	r.Floor("MF1", 1)
+	checkThrottleGrant(p, r)
 	r.Floor("GG1", 2)
 	r.Floor("GG2", 2)
 	r.Floor("CV4", 2)
